@@ -42,7 +42,51 @@ def wrap_term(I, ty, term):
             return unpack_pval(I, term, ty[1])
         if ty[0] == 'func':
             return SV('func', BuiltinRef('contractfunc:' + ty[1]), extra={'contract': ty[1], 'id': term})
+        if ty[0] == 'bobj':
+            from .loops import bytes_object
+            return bytes_object(I, ty[1], term)
     raise OutOfSubset(f"cannot wrap term of type {ty!r}")
+
+
+def elem_term(I, ety, v, node=None):
+    """the SMT term under which value v is stored as an element of a symbolic list of element type ety"""
+    if isinstance(ety, tuple) and ety[0] == 'bobj':
+        if not I.is_byteslike(v):
+            raise OutOfSubset(f"element of kind {v.kind} in a list of {ety[1]}")
+        if v.kind == 'mobj':
+            pos = v.t.fields.get('pos')
+            if pos is not None and const_int(as_int_term(pos)) != 0:
+                raise OutOfSubset("a packet whose cursor has moved stored in a list (only its bytes are kept)")
+        return I.as_bytes(v)
+    if isinstance(ety, tuple) and ety[0] == 'list':
+        return as_slist(I, v, ety[1], node).t
+    if ety == 'int':
+        return as_int_term(v)
+    return v.t
+
+
+def as_slist(I, v, ety, node=None):
+    """a concrete or symbolic list as a symbolic list of element type ety"""
+    lt = TY.list_theory(TY.smt_sort(ety))
+    if v.kind == 'slist':
+        return v
+    if v.kind in ('clist', 'tuple'):
+        t = lt.lempty
+        for e in v.t:
+            t = lt.lapp(t, elem_term(I, ety, e, node))
+        return SV('slist', t, extra={'elem': ety})
+    if v.kind == 'lslice':
+        raise OutOfSubset("copy of a list slice")
+    raise OutOfSubset(f"{v.kind} where a list is expected")
+
+
+def mdict_key(I, d, key, node):
+    kt = d.extra['key']
+    if kt == 'int' and key.kind in ('int', 'bool'):
+        return as_int_term(key)
+    if kt == 'str' and key.kind == 'str':
+        return key.t
+    raise OutOfSubset(f"key of kind {key.kind} into a local dict keyed by {kt}")
 
 
 def narrow_class(I, obj, node):
@@ -201,6 +245,8 @@ def get_attr(I, obj, attr, node, frame=None):
         return SV('func', BuiltinRef('list.' + attr, obj))
     if k == 'slist' and attr in ('index', 'append'):
         return SV('func', BuiltinRef('slist.' + attr, obj))
+    if k == 'mdict' and attr in ('get', 'pop'):
+        return SV('func', BuiltinRef('mdict.' + attr, obj))
     if k == 'exc' and attr in obj.t[1]:
         return obj.t[1][attr]
     if k == 'odict' and attr in ('items', 'keys', 'values', 'get'):
@@ -319,6 +365,24 @@ def get_item(I, obj, key, node):
         if not I.spec and not I.path.decide(z3.Select(obj.t['has'], key.t)):
             I.raise_('KeyError', node)
         return wrap_term(I, obj.extra['elem'], z3.Select(obj.t['val'], key.t))
+    if obj.kind == 'mdict':
+        kt = mdict_key(I, obj, key, node)
+        if not I.spec and not I.path.decide(z3.Select(obj.t['has'], kt)):
+            I.raise_('KeyError', node)
+        v = wrap_term(I, obj.extra['elem'], z3.Select(obj.t['val'], kt))
+        if v.kind == 'slist' and not I.spec:
+            v.extra = dict(v.extra, backref=(obj, kt))       # d[k].append(x) updates the dict entry
+        return v
+    if obj.kind == 'lslice':
+        base, lo_t, hi_t = obj.t
+        lt = TY.list_theory(TY.smt_sort(base.extra['elem']))
+        i = as_int_term(key)
+        if not I.spec:
+            if I.path.decide(z3.Or(i < 0, i >= hi_t - lo_t)):
+                if I.path.decide(z3.Or(i < -(hi_t - lo_t), i >= hi_t - lo_t)):
+                    I.raise_('IndexError', node)
+                i = i + (hi_t - lo_t)
+        return wrap_term(I, base.extra['elem'], lt.lat(base.t, lo_t + i))
     if obj.kind == 'kmap':
         kt = kmap_key_term(I, obj, key, node)
         if kt is None:
@@ -409,6 +473,11 @@ def set_item(I, obj, key, v, node):
                 I.oos(node, "symbolic key store into a literal dict")
         obj.t.append((key, v))
         return
+    if obj.kind == 'mdict':
+        kt = mdict_key(I, obj, key, node)
+        obj.t = {'has': z3.Store(obj.t['has'], kt, z3.BoolVal(True)),
+                 'val': z3.Store(obj.t['val'], kt, elem_term(I, obj.extra['elem'], v, node))}
+        return
     if obj.kind == 'ext':
         return I.registry.ext_setitem(I, obj, key, v, node)
     I.oos(node, f"subscript store on {obj.kind}")
@@ -476,5 +545,15 @@ def get_slice(I, obj, lo, hi, node):
         items = list(obj.t)[slice(lo_c, hi_c)]
         return SV(obj.kind, items if obj.kind == 'clist' else tuple(items))
     if obj.kind == 'slist':
-        return I.registry.slist_slice(I, obj, lo, hi, node)
+        # a slice of a symbolic list is kept as a read-only view (base list, lo, hi)
+        lt = TY.list_theory(TY.smt_sort(obj.extra['elem']))
+        n = lt.llen(obj.t)
+        lo_t = clamp_index(I, as_int_term(lo), n) if lo is not None and lo.kind != 'none' else z3.IntVal(0)
+        hi_t = clamp_index(I, as_int_term(hi), n) if hi is not None and hi.kind != 'none' else n
+        c_lo = const_int(as_int_term(lo)) if lo is not None and lo.kind != 'none' else 0
+        if c_lo is not None and c_lo >= 0 and (hi is None or hi.kind == 'none') and not I.path._feasible(n < c_lo):
+            # xs[c:] of a list known to have at least c elements: no clamping needed
+            return SV('lslice', (obj, z3.IntVal(c_lo), n))
+        hi_t = z3.If(hi_t < lo_t, lo_t, hi_t)
+        return SV('lslice', (obj, z3.simplify(lo_t), z3.simplify(hi_t)))
     I.oos(node, f"slice of {obj.kind}")
